@@ -96,3 +96,25 @@ Example filtered_script_example :
   script_opts (mkfopts 2 [] []) [] [3] None leak_tasks =
   [CBegin; CEntry 0 1 1050 3 3; CExit 0 1 1060 10 3 3; CEnd].
 Proof. vm_compute. reflexivity. Qed.
+
+(* exec / setjmp / longjmp fix-ups: the depth passed with the entry of longjmp() (4) and of execl() (2) is the
+   depth of the call itself - what replay prints - not the depth fstack_update moves the task to afterwards
+   (1 after the longjmp, 0 after the exec).  main{ setjmp(); outer{ middle{ thrower{ longjmp( ; setjmp returns
+   again; do_exec{ execl( ; new image main{ } *)
+Definition jump_tasks : list task :=
+  [ mktask None [mkrec 1000 ENTRY 0 1; mkrec 1010 ENTRY 1 2000006; mkrec 1020 EXIT 1 2000006; mkrec 1030 ENTRY 1 2;
+                 mkrec 1040 ENTRY 2 3; mkrec 1070 ENTRY 3 4; mkrec 1100 ENTRY 4 3000007; mkrec 1110 EXIT 1 2000006;
+                 mkrec 1140 ENTRY 1 9; mkrec 1170 ENTRY 2 1000008; mkrec 1200 ENTRY 0 1; mkrec 1230 EXIT 0 1] ].
+Example jump_callbacks :
+  script_run [] [] None jump_tasks =
+  [ CBegin; CEntry 0 0 1000 1 1; CEntry 0 1 1010 2000006 2000006; CExit 0 1 1020 10 2000006 2000006;
+    CEntry 0 1 1030 2 2; CEntry 0 2 1040 3 3; CEntry 0 3 1070 4 4;
+    CEntry 0 4 1100 3000007 3000007;                 (* longjmp() at its own depth 4 *)
+    CExit 0 1 1110 80 2000006 2000006;               (* setjmp() returns again at depth 1 (timed from the slot of outer) *)
+    CEntry 0 1 1140 9 9;
+    CEntry 0 2 1170 1000008 1000008;                 (* execl() at its own depth 2 *)
+    CEntry 0 0 1200 1 1; CExit 0 0 1230 30 1 1;      (* the new image starts at depth 0 *)
+    CEnd ] /\
+  script_run [] [] None jump_tasks =
+  CBegin :: map cb_of_event (events_of (fst (replay_raw (mkcfg false []) None jump_tasks))) ++ [CEnd].
+Proof. split; [vm_compute; reflexivity|apply script_same_calls]. Qed.
